@@ -6,7 +6,7 @@ LEVEL = "proof"
 def check(run):
     n = 24 if run.tier == "quick" else 400
     ops = 300 if run.tier == "quick" else 2000
-    kvcommon.drive(run, "reopen", n, ops, reopen=True, bigfile=(3 if run.tier == "quick" else 60))
+    kvcommon.drive(run, "reopen", n, ops, reopen=True, bigfile=(3 if run.tier == "quick" else 60), trailer=1)
     return run.finish(level=LEVEL, rule=kvcommon.RULE, assumptions=kvcommon.ASSUME)
 
 def replay(run, path):
